@@ -81,6 +81,10 @@ def vocab_issue_tokens(toks):
     for t in toks:
         if not isinstance(t, tuple):
             continue
+        if t and t[0] == "loop" and not any(isinstance(x, tuple) and x and x[0] in ("hdr", "child", "children", "walk") for x in (t[1] if len(t) > 1 and isinstance(t[1], tuple) else ())):
+            # a `while` / `loop` that transfers fields without a recognisable repetition count
+            if any(isinstance(x, tuple) and x and x[0] == "f" for x in (t[1] if len(t) > 1 and isinstance(t[1], tuple) else ())):
+                return "loop without a recognisable repetition count"
         for x in t[1:]:
             if isinstance(x, str):
                 if not _ROLE.match(x):
@@ -113,6 +117,18 @@ def model_vocab_issue(fx, m, adt, side=None):
     fields = {f["name"] for f in adt["variants"][0]["fields"]} if adt and adt["kind"] == "Struct" else set()
     fixed = fixed_of(adt)
     L2.set_fixed(fixed)
+    # stream operations hidden in a closure that the layout view could not turn into a loop are invisible to the extractor
+    from packs_common import IO_TRAITS, io_fallible_set
+    iof_ = io_fallible_set(fx, callgraph(fx))
+
+    def is_io(c):
+        return c.get("trait") in IO_TRAITS or (c.get("resolved") or c.get("fn")) in iof_
+    for sd, f_ in (("r", getattr(m, "fr", None)), ("w", getattr(m, "fw", None)), ("w", getattr(m, "fs", None))):
+        if f_ is None or (side is not None and sd != side):
+            continue
+        root_ = hirq.layout_root(f_)
+        if root_ is not None and hirq.io_closures(root_, is_io):
+            return "closure performing stream I/O in %s" % f_["name"]
     for cell in m.cells:
         for a in cell["A"]:
             if a.startswith("?"):
